@@ -10,7 +10,7 @@ from pyvc.contract import *
 HERE = os.path.dirname(os.path.dirname(os.path.abspath(__file__)))
 NAMES = ["plain", "two words", "d'q", 'd"q', "do$lar", "back\\slash", "new\nline", "tab\tname", "in$\tout", "cr\rname", "a\\", "a'b\"c$d", "star*name", "q?mark", "~tilde",
          "-dash", "#hash", "and", "semi;colon", "pipe|name", "amp&name", "paren(name)", "brace{a,b}", "é日本", "sp  two", "end ", "$HOME", "`tick`", "a=b", "x:y", "@at", "!bang",
-         "a\\tb", "in\\$x\ny", "q'\nline", "[sq]"] + ['x"y\'', 'both\'"', 'Bob\'s "final" draft \'', '\'lead"', '"\'', "tri'''ple"]
+         "a\\tb", "in\\$x\ny", "q'\nline", "[sq]"] + ['x"y\'', 'both\'"', 'Bob\'s "final" draft \'', '\'lead"', '"\'', "tri'''ple"] + ["form\x0cfeed", "vert\x0btab", "bell\x07", "esc\x1bname", "low\x01ctl", "del\x7fchar"]
 
 _DRIVER = r'''
 import contextlib, io, os, sys, json, warnings
